@@ -32,6 +32,14 @@ CLAIMS = {
    text="Static decision of the attribute-condition machinery: the evaluator's decision table over all 7 formula constructors with per-arm semantic checks (negation, first-true/first-false loops, constant true, is_backend, is_name_value with argument order), exact-equality is_backend, the 24-cell `supports =` table (each literal returns the flag of the same name, all flags covered), target->attr_support/run pairing in gen, parser keyword->constructor agreement, `disable` tested before lowering each method and first in every backend loop over types/traits, the proc macro never reads backend-conditional attributes (so exports cannot depend on them), `disable` inheritance and the parent-attribute source used by each type lowerer. Exhaustive over formula constructors and flags because the tables are finite.",
    note="Does not prove byte-identity of other backends' outputs; that follows from these rules plus C14 but is a behavioural statement.",
    technique="decision tables + HIR arm-semantics rules + who-may-read rule on the macro crate"),
+ "C07": dict(
+   text="Static decision that the Dart and Kotlin native declarations agree with the C ABI where this is visible in the generator's shape: primitive->native tables extracted as decision tables and compared with rustc's layouts (Dart: exact kind and width, 17 cells; Kotlin/JNA: width and pointer-sizedness for both the parameter and the struct-field table, default initialisers consistent with the native type, FFI wrapper class widths); helper-name tables consistent with them; result/option/slice record mirrors (field order, flag width) and @JvmField order == getFieldOrder() in every JNA Structure; parameter order self->params->write and the write parameter declared for every ReturnType(.., Write) shape (decision table over ReturnType); struct field order preserved; by-value/pointer categories; helper-record cache key at least as fine as the record's ABI shape.",
+   note="JNA's Boolean parameter mapping and dart:ffi's own semantics are trusted (spec/foreign_types.json); per-program signatures are not enumerated.",
+   technique="decision tables + rustc layout oracle + template mirrors + ordering/totality rules"),
+ "C08": dict(
+   text="Static decision of the JS layout clauses against rustc's own wasm32-unknown-unknown layouts (obtained by type-checking a #![no_core] probe crate with -Zprint-type-sizes, nothing executed): the primitive size/align table (17 cells, plus host==wasm32 for every Layout::new::<T>() the tool evaluates on the host), enum/pointer/slice cells, the DiplomatOption (size, align) formula evaluated as an extracted closed-form term for every primitive/slice/enum payload, the padding and trailing-padding formulas of struct_field_info evaluated exhaustively on a 5x65 (align, offset) grid plus the statement order offset-after-padding-before-size, the typed-array table, the runtime's pointer/flag/discriminant reads and option flag position, and the documented legacy-ABI padding threshold.",
+   note="Does not decide struct_field_info's output for every field order nor the bytes written for all values (algorithm/behaviour); the formulas and tables it is built from are decided. Host must be a 64-bit little-endian target (stated in evidence).",
+   technique="decision tables + rustc wasm32 layout oracle + extracted-formula evaluation on exhaustive grids"),
 }
 NOT_YET = "rule module not built yet in this round (see DESIGN.md section 4 for the planned static rules)"
 
